@@ -144,6 +144,8 @@ class Engine:
         self.step_budget = step_budget
         self.notes = []
         self.access_hook = None     # f(kind, place_term, facts, loc) for places rooted at a static
+        self.value_hook = None      # f(term, loc, facts) for every computed rvalue
+        self.branches = []          # (discriminant term, loc) of every non-constant SwitchInt
         self.loc = None
 
     # ---------------------------------------------------------------------------------- entry
@@ -422,6 +424,7 @@ class Engine:
             lhs = s["lhs"]
             lty = body.local_ty(lhs["l"]) if not lhs["p"] else None
             v = self.rvalue(body, fk, st, s["rv"], lty, (fk, bb, s["at"]))
+            if self.value_hook is not None: self.value_hook(v, self.loc, st.facts)
             self.write_place(body, fk, st, lhs, v, (fk, bb, s["at"]))
         elif s["k"] == "setdiscr":
             self.write_place(body, fk, st, s["lhs"], ('sym', ('setdiscr', fk, bb)), (fk, bb))
@@ -584,6 +587,7 @@ class Engine:
             return [(t["otherwise"], st)]
         dty = term_ty(d)
         outs = []
+        self.branches.append((d, self.loc))
         is_bool = dty == 'bool' or (d[0] == 'op' and d[2] == 'bool')
         if is_bool:
             forced = self.assume(d) if self.assume else None
